@@ -2,6 +2,8 @@ package rules
 
 import (
 	"regexp"
+	"sort"
+	"strconv"
 	"strings"
 
 	"verif/tools/internal/ir"
@@ -74,11 +76,103 @@ func (f *FC) expandTiny(s string) string {
 	for round := 0; round < 8; round++ {
 		t := expandTinyOnce(s, tiny)
 		if t == s {
-			return t
+			break
 		}
 		s = t
 	}
-	return s
+	return renumberLambdas(f.foldLambdas(s))
+}
+
+var lamVarRe = regexp.MustCompile(`\bx([0-9]+)\b`)
+
+// renumberLambdas: lambda variables are numbered in order of appearance; after a lambda was folded away (or when
+// one was added) the later ones are renumbered so that the numbering is again 0, 1, 2 … in order of their binders.
+func renumberLambdas(s string) string {
+	locs := lamRe.FindAllStringSubmatch(s, -1)
+	if len(locs) == 0 {
+		return s
+	}
+	m := map[string]string{}
+	same := true
+	for _, l := range locs {
+		if _, ok := m[l[1]]; !ok {
+			n := strconv.Itoa(len(m))
+			m[l[1]] = n
+			if n != l[1] {
+				same = false
+			}
+		}
+	}
+	if same {
+		return s
+	}
+	return lamVarRe.ReplaceAllStringFunc(s, func(t string) string {
+		if n, ok := m[t[1:]]; ok {
+			return "x" + n
+		}
+		return t
+	})
+}
+
+var lamRe = regexp.MustCompile(`\\x([0-9]+)\. `)
+
+// foldLambdas: a lambda whose body is exactly the (expanded) body of a one-parameter tiny helper applied to the
+// lambda's variable is that helper: \x0. NameTypePair{Name: #0(x0), Ftype: #1(x0)} is tupToNTPair.
+func (f *FC) foldLambdas(s string) string {
+	if !strings.Contains(s, `\x`) {
+		return s
+	}
+	if f.tinyUnary == nil {
+		f.tinyUnary = map[string]string{}
+		tiny := f.tinyHelpers()
+		for name, def := range tiny {
+			if def.params != 1 {
+				continue
+			}
+			body := def.body
+			for round := 0; round < 8; round++ {
+				t := expandTinyOnce(body, tiny)
+				if t == body {
+					break
+				}
+				body = t
+			}
+			f.tinyUnary[name] = body
+		}
+	}
+	if len(f.tinyUnary) == 0 {
+		return s
+	}
+	names := make([]string, 0, len(f.tinyUnary))
+	for n := range f.tinyUnary {
+		names = append(names, n)
+	}
+	sort.Strings(names)
+	for {
+		locs := lamRe.FindAllStringSubmatchIndex(s, -1)
+		done := true
+		for _, loc := range locs {
+			v := "x" + s[loc[2]:loc[3]]
+			rest := s[loc[1]:]
+			for _, n := range names {
+				cand := tinyParamRe.ReplaceAllString(f.tinyUnary[n], v)
+				if strings.HasPrefix(rest, cand) {
+					after := rest[len(cand):]
+					if after == "" || strings.ContainsRune(",)]}", rune(after[0])) {
+						s = s[:loc[0]] + n + after
+						done = false
+						break
+					}
+				}
+			}
+			if !done {
+				break
+			}
+		}
+		if done {
+			return s
+		}
+	}
 }
 
 func expandTinyOnce(s string, tiny map[string]tinyDef) string {
